@@ -21,7 +21,7 @@ def cpp_leaves(widths):
     out += [F32, F64, STR]
     out += shapes.enum_leaves(bits=(1, 2, 3, 4, 5, 6, 7, 8))
     out += [enum_with_max(256), enum_with_max(511), enum_with_max(65535)]
-    out += [St(U(3)), St(I(5), F32)]
+    out += [St(U(3)), St(I(5), F32), shapes.OOO, ("st", (("a", 2, U(8)), ("b", 0, U(8)), ("c", 1, U(8))))]
     return out
 
 
